@@ -3,7 +3,7 @@
    ends as Section variables with their worst-case framing.  No proofs in this file. *)
 From Coq Require Import ZArith List Bool.
 Import ListNotations.
-Require Import SZV.Gen.SrcConsts.
+Require Import SZV.Gen.SrcConsts SZV.Gen.SrcFacts.
 Local Open Scope Z_scope.
 
 Definition esize (ty:Z) : Z := if ty =? 0 then 4 else if ty =? 1 then 8 else if (ty =? 2) || (ty =? 3) then 1
@@ -27,3 +27,9 @@ Definition out_size (wrap:Z -> Z) (ty st n:Z) (tiny const best_speed:bool) (k th
   if tiny then raw ty n
   else if const then const_stream ty st
   else let s := presize ty st n k thr in if best_speed then s else wrap s.
+
+(* ---- the zstd output buffer of sz_lossless_compress (utility.c), constants read from the source ---- *)
+Definition zstd_buffer (n:Z) : Z := if n <? src_zstd_small_limit then src_zstd_small_size else n * src_zstd_factor_milli / 1000.
+(* what zstd needs at worst for n input bytes: frame header (magic 4, descriptor 1, content size up to 8) and a 3-byte header per
+   block of at most 128 KiB, incompressible blocks being stored raw (zstd format, RFC 8878; trusted) *)
+Definition zstd_worst (n:Z) : Z := n + 13 + 3 * (n / 131072 + 1).
